@@ -631,12 +631,20 @@ def evaluate(ref, pd, r, order=0, rerr=0.0):
     return ref.potdef(pd, x, tr), tr
 
 
-def same_piece(ref, pd, r, delta):
+def on_boundary(ref, pd, r):
+    """True when a piecewise decision of the definition flips within one ulp of r: r sits EXACTLY on a boundary
+    (a range start, a spline join, ...).  Such a position is not in doubt when the float itself is - which side it
+    belongs to is decided by the definition ('>=s' includes s, '>s' does not)."""
+    return not same_piece(ref, pd, r, 0.0, ulp=True)
+
+
+def same_piece(ref, pd, r, delta, ulp=False):
     """True when the definition takes the same piecewise decisions at r-delta, r, r+delta"""
+    lo, hi = (math.nextafter(r, -math.inf), math.nextafter(r, math.inf)) if ulp else (r - delta, r + delta)
     try:
         _, t0 = evaluate(ref, pd, r)
-        _, t1 = evaluate(ref, pd, r - delta)
-        _, t2 = evaluate(ref, pd, r + delta)
+        _, t1 = evaluate(ref, pd, lo)
+        _, t2 = evaluate(ref, pd, hi)
     except DomainError:
         return False
     return list(t0) == list(t1) == list(t2)
